@@ -340,8 +340,8 @@ class ObjectsMixin:
             raise Unsupported(f'call of unmodelled {f.name}')
         raise Unsupported(f'call of {type(f).__name__}')
 
-    def call_function(self, f, args, kwargs):
-        hook = self.contract_hooks.get(f) if self.contract_hooks else None
+    def call_function(self, f, args, kwargs, skip_hook=False, capture=None):
+        hook = self.contract_hooks.get(f) if (self.contract_hooks and not skip_hook) else None
         if hook is not None:
             r = hook(self, f, args, kwargs)
             if r is not NOTIMPL:
@@ -403,6 +403,9 @@ class ObjectsMixin:
             self.call_depth -= 1
             self.func_stack.pop()
             self.fn_stack.pop()
+            if capture is not None:
+                capture.clear()
+                capture.update(env.vars)
         return None
 
     def call_dunder(self, obj, name, args, missing_ok=False):
